@@ -282,9 +282,11 @@ def calculate_lm(steps, rate, accel, accum="clear"):
     # Begin with initial assumption that motor does not reverse direction: flag as t = -1.
     t_rev_star = -1.0   # Time, float, when rate = 0; i.e., when motor direction reverses
     t_rev = -1          # Integer timestep of last motor step in initial motion direction
-    if (accel != 0) and (rate != 0) and ((accel > 0) != (rate > 0)):
-        t_rev_star = 0.5 - rate / accel
-        t_rev = math.floor(t_rev_star)
+    rate_zero = rate - int(accel / 2) # Rate factor "before the first tick"; rate at tick k is rate_zero + k * accel
+    if initial_rate_negative and accel > 0:
+        t_rev = (-rate_zero) // accel   # Last tick at which the rate is still <= 0
+    elif (not initial_rate_negative) and accel < 0:
+        t_rev = rate_zero // (-accel)   # Last tick at which the rate is still >= 0
 
     s_rev = 0 # Position at direction reversal: S_Rev = (R0 T + 1/2A T^2 + C0) / 2^31
     if t_rev > 0:
@@ -297,7 +299,7 @@ def calculate_lm(steps, rate, accel, accum="clear"):
     # Calculate final position. And, adjusted final position, with step position rounded
     #   "back" by 1, in cases where direction reverses. This correction means that we look
     #   for the *first* time step at the target position, not the *last*.
-    if (t_rev <= 1) or (s_rev >= steps): # Reversal by first step or after end of move
+    if (t_rev < 1) or (s_rev >= steps): # No reversal, or reversal after end of move
         t_rev = -1 # Set flag: No direction reversal during this move.
         if initial_rate_negative:
             pos_final = -steps
@@ -333,6 +335,11 @@ def calculate_lm(steps, rate, accel, accum="clear"):
         time_final_star = 0 # Fallback, if no solutions are found.
         two_a = mpmath.mpf(accel) # 2 * a = 2 * accel/2
         c_factor = accum_adj - mpmath.mpf(pos_f_adj) * 2147483648
+        if t_rev > 0: # After a reversal, a step is taken only strictly past the step boundary
+            if accel < 0:
+                c_factor += 1
+            else:
+                c_factor -= 1
         discriminant = rate_effective * rate_effective - 2 * two_a * c_factor # b^2 - 4 a c
 
         neg_root = -1
